@@ -53,6 +53,7 @@ func runC17(c *Ctx) {
 	c.checkSiteSelectionFresh("site-selection-fresh")
 	c.checkPairScanFull("pair-scan-full")
 	c.checkArgNameOrder("arg-name-order", "distance/protein", "models", "models/protein")
+	c.checkPairedLines("paired-lines", "distance/protein", "models", "models/protein")
 }
 
 // denseSet describes a call M.Set(i, j, v) on a gonum Dense.
